@@ -438,6 +438,17 @@ func TestC14(t *testing.T) {
 		if preset {
 			ev.Formatted = map[string][]byte{}
 		}
+		var viaNode eventlogger.Node
+		switch cr.Intn(4) {
+		case 0:
+			viaNode = &eventlogger.JSONFormatter{}
+		case 1:
+			viaNode = &eventlogger.JSONFormatterFilter{}
+		}
+		nodeErr := ""
+		if viaNode != nil {
+			ev.Payload = map[string]interface{}{"n": i}
+		}
 		var arrived int32
 		var wg sync.WaitGroup
 		for g := 0; g < ng; g++ {
@@ -448,18 +459,35 @@ func TestC14(t *testing.T) {
 				for atomic.LoadInt32(&arrived) < int32(ng) {
 					runtime.Gosched()
 				}
+				if g == 0 && viaNode != nil {
+					// one of the writers is a formatter node at work on the same event (siblings below one node
+					// are handed the same event, each in its own goroutine)
+					if out, err := viaNode.Process(ctx, ev); err != nil || out != ev {
+						nodeErr = fmt.Sprintf("forwarded=%v err=%v", out == ev, err)
+					}
+					return
+				}
 				ev.FormattedAs(fmt.Sprintf("k%d", g), []byte(fmt.Sprintf("v%d-%d", i, g)))
 			}(g)
 		}
 		wg.Wait()
+		if viaNode != nil {
+			if b, ok := ev.Format(eventlogger.JSONFormat); nodeErr != "" || !ok || len(b) == 0 || b[len(b)-1] != '\n' {
+				run.Violation("history-pattern:format-table-first-store-lost", fmt.Sprintf("a JSON formatter node formatted the event while %d other writers stored their formats: %s; Format(json) afterwards gives %q,%v", ng-1, nodeErr, b, ok),
+					map[string]any{"writers": ng, "table_preset": preset, "node": fmt.Sprintf("%T", viaNode)})
+			}
+		}
 		for g := 0; g < ng; g++ {
+			if g == 0 && viaNode != nil {
+				continue
+			}
 			b, ok := ev.Format(fmt.Sprintf("k%d", g))
 			if !ok || string(b) != fmt.Sprintf("v%d-%d", i, g) {
 				run.Violation("history-pattern:format-table-first-store-lost", fmt.Sprintf("FormattedAs(%q) returned on a fresh event, but Format afterwards gives %q,%v", fmt.Sprintf("k%d", g), b, ok),
 					map[string]any{"writers": ng, "table_preset": preset})
 			}
 		}
-		run.Eval(fmt.Sprintf("first|%d|%v", ng, preset))
+		run.Eval(fmt.Sprintf("first|%d|%v|%T", ng, preset, viaNode))
 	}
 	c14SameObject(run, r)
 }
